@@ -622,6 +622,7 @@ func (p *c20) RunCase(ctx *runner.Ctx) runner.CaseResult {
 			p.noItemSearches(x, adapt.Adapters[ctx.Case-seqCases])
 			p.rejectedNativeUpdate(x, adapt.Adapters[ctx.Case-seqCases])
 			p.missingUpdaterAndConditions(x, adapt.Adapters[ctx.Case-seqCases])
+		p.prefixNamedTables(x, adapt.Adapters[ctx.Case-seqCases])
 			return x.r
 		}
 		p.parallelClients(x, ctx.Case-seqCases-2, ctx)
